@@ -4,6 +4,9 @@
 //!       `env <dom> <ty> <pay> <sig> <key> <expty>` (1 = unchanged)     verify + payload_and_signing_key
 //!       `rec <envok> <recdec> <pidparse> <pidsigner> <addrs>`           PeerRecord::from_signed_envelope(_interop)
 //!       `mutate <keyty> <pos> <xor>`                                    one byte of an encoded envelope changed
+//!       `sigpayload <d> <t> <p>`                                        the exact signed bytes (cfg(libp2p_verif) hook)
+//!       `resplit <keyty> <d> <t> <p> <d'> <t'> <p'> <full|omit>`        envelope signed for (d,t,p) presented as (d',t',p')
+//!                                                                       with the same key and signature
 use hcore::{Args, Multiaddr, Out, Rng};
 use libp2p_core::{peer_record::FromEnvelopeError, PeerRecord, SignedEnvelope};
 use libp2p_identity::{ecdsa, secp256k1, Keypair, PeerId};
@@ -161,11 +164,9 @@ fn op_env(out: &mut Out, rng: &mut Rng, ty: u32, same: [bool; 6]) {
     let r = hcore::guarded(|| {
         let kp = keypair(rng, ty);
         let other = keypair(rng, 1);
-        let domain = format!("dom-{}", rng.below(1000));
-        let n = rng.usize(6);
-        let ptype = rng.bytes(1 + n);
-        let n = rng.usize(40);
-        let payload = rng.bytes(n);
+        let domain = String::from_utf8(gen_field(rng, false)).unwrap();
+        let ptype = gen_field(rng, false);
+        let payload = gen_field(rng, false);
         let env = SignedEnvelope::new(&kp, domain.clone(), ptype.clone(), payload).expect("sign");
         let mut f = split_envelope(&env.into_protobuf_encoding());
         if !same[1] {
@@ -181,16 +182,22 @@ fn op_env(out: &mut Out, rng: &mut Rng, ty: u32, same: [bool; 6]) {
             f[0] = other.public().encode_protobuf();
         }
         let env2 = SignedEnvelope::from_protobuf_encoding(&join_envelope(&f)).expect("re-decode");
-        // a wrong domain of the same length (last digit changed) or a longer one
+        // a wrong domain of the same length (last byte changed), a longer one, or a shorter one
         let dom2 = if same[0] {
             domain
-        } else if rng.bool() {
-            let mut d = domain.clone().into_bytes();
-            let l = d.len() - 1;
-            d[l] = b'0' + (d[l] - b'0' + 1) % 10;
-            String::from_utf8(d).unwrap()
+        } else if domain.is_empty() {
+            "x".to_string()
         } else {
-            format!("{domain}x")
+            match rng.below(3) {
+                0 => {
+                    let mut d = domain.clone().into_bytes();
+                    let l = d.len() - 1;
+                    d[l] = if d[l] == b'z' { b'a' } else { b'z' };
+                    String::from_utf8(d).unwrap()
+                }
+                1 => format!("{domain}x"),
+                _ => domain[..domain.len() - 1].to_string(),
+            }
         };
         let mut expected = f[1].clone();
         if !same[5] {
@@ -214,6 +221,97 @@ fn op_env(out: &mut Out, rng: &mut Rng, ty: u32, same: [bool; 6]) {
         Ok(t) => out.imp(&t),
         Err(m) => out.imp(&format!("panic:{m} -")),
     }
+}
+
+/// field content: lowercase ASCII (any split of a concatenation stays valid UTF-8); empty with high
+/// probability, lengths on both sides of the varint boundaries
+fn gen_field(rng: &mut Rng, allow_huge: bool) -> Vec<u8> {
+    let n = match rng.below(100) {
+        0..=39 => 0,
+        40..=51 => 1,
+        52..=75 => 2 + rng.usize(5),
+        76..=81 => 127,
+        82..=87 => 128,
+        88..=89 if allow_huge => 16383,
+        90..=91 if allow_huge => 16384,
+        _ => 7 + rng.usize(34),
+    };
+    (0..n).map(|_| b'a' + rng.below(26) as u8).collect()
+}
+
+fn op_sigpayload(out: &mut Out, d: &[u8], t: &[u8], p: &[u8]) {
+    out.op(&format!("sigpayload {} {} {}", hcore::hex(d), hcore::hex(t), hcore::hex(p)));
+    let r = hcore::guarded(|| {
+        libp2p_core::signed_envelope::verif_c21::verif_signature_payload(String::from_utf8(d.to_vec()).expect("utf8"), t, p)
+    });
+    match r {
+        Ok(bytes) => out.imp(&hcore::hex(&bytes)),
+        Err(m) => out.imp(&format!("panic:{m}")),
+    }
+}
+
+/// envelope bytes with every field written (`full`) or empty fields omitted as prost does (`omit`)
+fn encode_envelope(f: &[Vec<u8>; 4], omit_empty: bool) -> Vec<u8> {
+    let mut v = vec![];
+    for (tag, data) in [(1u8, &f[0]), (2, &f[1]), (3, &f[2]), (5, &f[3])] {
+        if !(omit_empty && data.is_empty()) {
+            v.extend(field(tag, data));
+        }
+    }
+    v
+}
+
+#[allow(clippy::too_many_arguments)]
+fn op_resplit(out: &mut Out, key_seed: u64, kty: u32, orig: [&[u8]; 3], pres: [&[u8]; 3], omit: bool) {
+    out.op(&format!(
+        "resplit {} {} {} {} {} {} {} {}",
+        kty,
+        hcore::hex(orig[0]),
+        hcore::hex(orig[1]),
+        hcore::hex(orig[2]),
+        hcore::hex(pres[0]),
+        hcore::hex(pres[1]),
+        hcore::hex(pres[2]),
+        if omit { "omit" } else { "full" }
+    ));
+    let r = hcore::guarded(|| {
+        let kp = keypair(&mut Rng::new(key_seed), kty);
+        let env = SignedEnvelope::new(&kp, String::from_utf8(orig[0].to_vec()).expect("utf8"), orig[1].to_vec(), orig[2].to_vec())
+            .expect("sign");
+        let mut f = split_envelope(&env.into_protobuf_encoding());
+        f[1] = pres[1].to_vec();
+        f[2] = pres[2].to_vec();
+        let env2 = SignedEnvelope::from_protobuf_encoding(&encode_envelope(&f, omit)).expect("re-decode");
+        let dom2 = String::from_utf8(pres[0].to_vec()).expect("utf8");
+        let v = env2.verify(dom2.clone());
+        let res = match env2.payload_and_signing_key(dom2, pres[1]) {
+            Ok((p, _)) => {
+                if p == pres[2] {
+                    "ok"
+                } else {
+                    "ok-wrong-payload"
+                }
+            }
+            Err(libp2p_core::signed_envelope::ReadPayloadError::InvalidSignature) => "err:sig",
+            Err(libp2p_core::signed_envelope::ReadPayloadError::UnexpectedPayloadType { .. }) => "err:type",
+        };
+        format!("verify={} {}", b(v), res)
+    });
+    match r {
+        Ok(t) => out.imp(&t),
+        Err(m) => out.imp(&format!("panic:{m} -")),
+    }
+}
+
+/// every way to cut `x` into three consecutive (possibly empty) pieces
+fn splits(x: &[u8]) -> Vec<[Vec<u8>; 3]> {
+    let mut v = vec![];
+    for i in 0..=x.len() {
+        for j in i..=x.len() {
+            v.push([x[..i].to_vec(), x[i..j].to_vec(), x[j..].to_vec()]);
+        }
+    }
+    v
 }
 
 fn rec_verdict(r: Result<PeerRecord, FromEnvelopeError>) -> &'static str {
@@ -367,6 +465,12 @@ pub fn run(args: &Args, out: &mut Out) {
                         let sc: u32 = hdr.iter().find_map(|t| t.strip_prefix("sc=")).and_then(|s| s.parse().ok()).unwrap_or(0);
                         op_rec(out, &mut rng, kty, sc)
                     }
+                    "sigpayload" => op_sigpayload(out, &hcore::unhex(&op[1]), &hcore::unhex(&op[2]), &hcore::unhex(&op[3])),
+                    "resplit" => {
+                        let u = |i: usize| hcore::unhex(&op[i]);
+                        let (o, q) = ([u(2), u(3), u(4)], [u(5), u(6), u(7)]);
+                        op_resplit(out, seed, op[1].parse().unwrap(), [&o[0], &o[1], &o[2]], [&q[0], &q[1], &q[2]], op[8] == "omit")
+                    }
                     "mutate" => {
                         let ty: u32 = op[1].parse().unwrap();
                         op_mutate(out, &bases[ty as usize], ty, op[2].parse().unwrap(), op[3].parse().unwrap())
@@ -421,6 +525,122 @@ pub fn run(args: &Args, out: &mut Out) {
                 out.end();
                 idx += 1;
             }
+        }
+    }
+    // 5. the signed bytes themselves (hook) for every combination of boundary lengths, empty fields first
+    {
+        let small = [0usize, 1, 127, 128];
+        let big = [16383usize, 16384];
+        let mut combos: Vec<[usize; 3]> = vec![];
+        for a in small {
+            for b2 in small {
+                for c in small {
+                    combos.push([a, b2, c]);
+                }
+            }
+        }
+        for pos in 0..3 {
+            for g in big {
+                for a in small {
+                    for b2 in small {
+                        let mut v = vec![a, b2];
+                        v.insert(pos, g);
+                        let l = [v[0], v[1], v[2]];
+                        combos.push(l);
+                    }
+                }
+            }
+        }
+        if args.thorough && args.count == 0 {
+            for a in big {
+                for b2 in big {
+                    for c in [0usize, 1, 16383, 16384] {
+                        combos.push([a, b2, c]);
+                        combos.push([c, a, b2]);
+                        combos.push([a, c, b2]);
+                    }
+                }
+            }
+        }
+        for (k, l) in combos.iter().enumerate() {
+            let mut rng = Rng::for_case(args.seed, 7_000_000 + k as u64);
+            let mk = |rng: &mut Rng, n: usize| -> Vec<u8> { (0..n).map(|_| b'a' + rng.below(26) as u8).collect() };
+            let (d, t, p) = (mk(&mut rng, l[0]), mk(&mut rng, l[1]), mk(&mut rng, l[2]));
+            out.case(idx, "sigpayload nt=1");
+            op_sigpayload(out, &d, &t, &p);
+            out.end();
+            idx += 1;
+        }
+        let n = args.n(300, 20_000);
+        for i in 0..n {
+            let mut rng = Rng::for_case(args.seed, 7_100_000 + i);
+            let (d, t, p) = (gen_field(&mut rng, true), gen_field(&mut rng, true), gen_field(&mut rng, true));
+            out.case(idx, "sigpayloadrnd nt=1");
+            op_sigpayload(out, &d, &t, &p);
+            out.end();
+            idx += 1;
+        }
+    }
+    // 6. re-split attacks: exhaustively, every signed split of a short string presented as every
+    //    other split of the same string (same key, same signature), both envelope encodings
+    {
+        let strings: Vec<Vec<u8>> = vec![
+            b"".to_vec(),
+            b"a".to_vec(),
+            b"ab".to_vec(),
+            b"abc".to_vec(),
+            b"aaaa".to_vec(),
+            vec![0x01, b'a', 0x01, b'b'], // content that looks like length prefixes
+            vec![0x00, 0x00, 0x01],
+            b"abcde".to_vec(),
+        ];
+        for (si, x) in strings.iter().enumerate() {
+            let all = splits(x);
+            for kty in 0..4u32 {
+                // RSA and the 5-byte string only in the thorough tier (21 x 21 presentations)
+                if !(args.thorough && args.count == 0) && (x.len() >= 5 || (kty == 0 && x.len() >= 4)) {
+                    continue;
+                }
+                for (oi, o) in all.iter().enumerate() {
+                    let seed = args.seed.wrapping_mul(11_000_027).wrapping_add((si * 1000 + oi) as u64 * 4 + kty as u64);
+                    out.case(idx, &format!("resplit nt=1 rng={seed} kty={kty}"));
+                    for q in &all {
+                        let omit = (oi + q[1].len() + kty as usize) % 2 == 0;
+                        op_resplit(out, seed, kty, [&o[0], &o[1], &o[2]], [&q[0], &q[1], &q[2]], omit);
+                        if q[1].is_empty() || q[2].is_empty() {
+                            op_resplit(out, seed, kty, [&o[0], &o[1], &o[2]], [&q[0], &q[1], &q[2]], !omit);
+                        }
+                    }
+                    out.end();
+                    idx += 1;
+                }
+            }
+        }
+        // longer fields at the varint boundaries: move one boundary by one byte or all the way
+        let n = args.n(150, 5_000);
+        for i in 0..n {
+            let mut rng = Rng::for_case(args.seed, 7_200_000 + i);
+            let kty = (i % 4) as u32;
+            let o = [gen_field(&mut rng, i % 10 == 0), gen_field(&mut rng, i % 10 == 0), gen_field(&mut rng, i % 10 == 0)];
+            let x: Vec<u8> = o.concat();
+            let (b1, b2) = (o[0].len(), o[0].len() + o[1].len());
+            let mut cands: Vec<(usize, usize)> = vec![(b1, b2)];
+            for (i2, j2) in [
+                (b1.wrapping_sub(1), b2), (b1 + 1, b2), (b1, b2.wrapping_sub(1)), (b1, b2 + 1),
+                (0, b2), (b2, b2), (b1, b1), (b1, x.len()), (0, 0), (x.len(), x.len()), (0, x.len()), (b2, x.len()), (0, b1),
+            ] {
+                if i2 <= j2 && j2 <= x.len() {
+                    cands.push((i2, j2));
+                }
+            }
+            let seed = args.seed.wrapping_mul(13_000_027).wrapping_add(i);
+            out.case(idx, &format!("resplitrnd nt=1 rng={seed} kty={kty}"));
+            for (i2, j2) in cands {
+                let q = [x[..i2].to_vec(), x[i2..j2].to_vec(), x[j2..].to_vec()];
+                op_resplit(out, seed, kty, [&o[0], &o[1], &o[2]], [&q[0], &q[1], &q[2]], rng.bool());
+            }
+            out.end();
+            idx += 1;
         }
     }
     // 4. single-byte mutations of an encoded peer-record envelope: every position; thorough: every
